@@ -105,9 +105,8 @@ def rule_r1(ctx):
                        'dataset changes it' % (e.origin, name, attr, how))
     rep.count('protocol members analysed (closed over self calls)', members)
     rep.count('write sites seen', sites)
-    rep.ob('R1', 'core::no-untabled-write-in-protocol-members', not any(
-        (not o.ok) and o.rule.endswith('.R1') for o in rep.obligations), None,
-        '%d members, %d write sites, %d verified memo/tabled' % (members, sites, tabled))
+    rep.summary('R1', 'core::no-untabled-write-in-protocol-members',
+                '%d members, %d write sites, %d verified memo/tabled' % (members, sites, tabled))
     rep.floor('write sites in protocol members', sites, 8)
 
 
@@ -158,9 +157,7 @@ def rule_r2(ctx):
                                 rep.ob('R2', K.key(cls, name, 'stores-iterator(%s)' % t.attr), False, n,
                                        'a one-shot iterator (%s) is stored on the stage: the first pass consumes it and '
                                        'a second iteration yields nothing or resumes in the middle' % why)
-    rep.ob('R2', 'core::no-iterator-in-instance-state', not any(
-        (not o.ok) and o.rule.endswith('.R2') for o in rep.obligations), None,
-        '%d attribute stores inspected' % stores)
+    rep.summary('R2', 'core::no-iterator-in-instance-state', '%d attribute stores inspected' % stores)
     rep.floor('attribute stores inspected', stores, 50)
 
 
@@ -244,9 +241,7 @@ def rule_r5(ctx):
                         rep.ob('R5', K.key(cls, name, 'inputs-in-stored-order'), False, n,
                                'the tuple of inputs is traversed through %s: part order differs from the order given '
                                'by the caller' % bad)
-    rep.ob('R5', 'core::inputs-traversed-in-stored-order', not any(
-        (not o.ok) and o.rule.endswith('.R5') for o in rep.obligations), None,
-        '%d uses of self.input_datasets inspected' % uses)
+    rep.summary('R5', 'core::inputs-traversed-in-stored-order', '%d uses of self.input_datasets inspected' % uses)
     rep.floor('uses of the input tuple', uses, 15)
 
 
